@@ -48,9 +48,9 @@ theorem macho_verify_of_locate (H : Bytes → Bytes) (f : Bytes) (p : SignParams
     `not_macho_sign_then_verify_full`).  For every hash function `H` with values of the advertised size, every image
     `machos.Sign` accepts that is `Regular` (C01_MachOLocate: the verifier's parser reads the input's load commands, at most
     one LC_CODE_SIGNATURE of size 16, __LINKEDIT command kind matches the magic, header below the end of code, old signature
-    inside the file and itself ≤ 10^7 bytes; that the commands fill sizeofcmds when one is added (F-MACHO-4) and that a fresh
-    region is ≤ 10^7 bytes (F-MACHO-3) is no longer assumed: the repaired `scanFile` / `Sign` test it, `regular_noSlack` /
-    `regular_small`),
+    inside the file; that the commands fill sizeofcmds when one is added (F-MACHO-4) and that the signature region, fresh or
+    reused, is ≤ 10^7 bytes (F-MACHO-3, F-MACHO-3b) is no longer assumed: the repaired `scanFile` / `Sign` test it,
+    `regular_noSlack` / `regular_small`),
     every signing parameter set without rep-specific slot and every CMS blob of more than 8 bytes whose embedded signature
     fits the reserved region: the patch set applies, and `machos.Verify` on the written file — `debug/macho`'s
     load-command walk over the patched header, `readSigBlob`, `parseSignature`, the special slots, `VerifyPages` — ends in
@@ -113,56 +113,72 @@ theorem macho_oversize_refused_orig (f : Bytes) (p : SignParams) (so : SignOut) 
   have := (locate_bounds g _ _ h).2.1
   omega
 
-/-- **macho_sign_refuses_oversize** (current tree, fix F-MACHO-3).  When the old signature region (if any) is smaller than
-    the estimate, so that a fresh region has to be reserved, and the estimate rounded up to a multiple of 8 exceeds the 10^7
-    bytes `readSigBlob` reads, `machos.Sign` refuses (`image too large`): nothing is written.  (`hr`: the int64 product
+/-- **macho_sign_refuses_oversize_region** (current tree, fixes F-MACHO-3 and F-MACHO-3b; both branches of `PatchSignature`).
+    Let `regionOf` be the size of the region `PatchSignature` is going to use: the image's old signature region when it is at
+    least as large as the estimate, the estimate rounded up to a multiple of 8 otherwise.  When it exceeds the 10^7 bytes
+    `readSigBlob` reads, `machos.Sign` refuses (`image too large`): nothing is written.  (`hr`: the int64 product
     `codeSize·(20+hashSize)` does not wrap, i.e. `codeSize < 2^63/(20+hashSize)`.) -/
+theorem macho_sign_refuses_oversize_region (f : Bytes) (p : SignParams) (m : Markers) (hs : scan f = .ok m)
+    (hr : ¬ estRange m (hashSizeOf p.hash))
+    (hbig : regionOf m (estI m (hashSizeOf p.hash) ((p.entitlement.map (·.length)).getD 0)
+      ((p.requirements.map (·.length)).getD 0)) > 10000000) :
+    sign f p = .err "signtoolarge" :=
+  sign_refuses_oversize f p m hs hr hbig
+
+/-- **macho_sign_refuses_oversize** (the fresh-region branch, fix F-MACHO-3): the old region (if any) is smaller than the
+    estimate and the estimate rounded up to a multiple of 8 exceeds 10^7 -/
 theorem macho_sign_refuses_oversize (f : Bytes) (p : SignParams) (m : Markers) (hs : scan f = .ok m)
     (hr : ¬ estRange m (hashSizeOf p.hash))
     (hlt : (m.sigLen : Int) < estI m (hashSizeOf p.hash) ((p.entitlement.map (·.length)).getD 0) ((p.requirements.map (·.length)).getD 0))
     (hbig : align (estI m (hashSizeOf p.hash) ((p.entitlement.map (·.length)).getD 0)
       ((p.requirements.map (·.length)).getD 0)).toNat 8 > 10000000) :
     sign f p = .err "signtoolarge" :=
-  sign_refuses_oversize f p m hs hr ⟨hlt, hbig⟩
+  macho_sign_refuses_oversize_region f p m hs hr (by unfold regionOf; rw [if_pos hlt]; exact hbig)
 
-/-- **macho_fresh_region_small** (current tree): a region `machos.Sign` reserves afresh is at most 10^7 bytes — no hypothesis -/
-theorem macho_fresh_region_small (f : Bytes) (p : SignParams) (so : SignOut) (hsign : sign f p = .ok so)
-    (hfresh : so.plan.po.sigBufLen ≠ so.plan.m.sigLen) : so.plan.po.sigBufLen ≤ 10000000 := by
-  obtain ⟨_, _, hg⟩ := sign_inv' f p so hsign
-  rcases macho_reserved_size f p so hsign with ⟨_, h2⟩ | ⟨h1, h2⟩
-  · exact absurd h2 hfresh
-  · rw [h2]
-    unfold sizeGuard estI at hg
-    by_cases c : align (Int.tdiv (so.plan.m.codeSize * (20 + hashSizeOf p.hash : Nat)) 4096 +
-        (((p.entitlement.map (·.length)).getD 0) + ((p.requirements.map (·.length)).getD 0) : Nat) + 16384).toNat 8 > 10000000
-    · exact absurd ⟨by omega, c⟩ hg
-    · omega
+/-- **macho_sign_refuses_oversize_reuse** (the reuse branch, fix F-MACHO-3b): the old region is at least as large as the
+    estimate and larger than 10^7 bytes -/
+theorem macho_sign_refuses_oversize_reuse (f : Bytes) (p : SignParams) (m : Markers) (hs : scan f = .ok m)
+    (hr : ¬ estRange m (hashSizeOf p.hash))
+    (hge : ¬ (m.sigLen : Int) < estI m (hashSizeOf p.hash) ((p.entitlement.map (·.length)).getD 0) ((p.requirements.map (·.length)).getD 0))
+    (hbig : m.sigLen > 10000000) :
+    sign f p = .err "signtoolarge" :=
+  macho_sign_refuses_oversize_region f p m hs hr (by unfold regionOf; rw [if_neg hge]; exact hbig)
 
-/-- **macho_oversize_only_by_reuse** (current tree): a successful `machos.Sign` names a region of more than 10^7 bytes only
-    when it reuses the image's own old region of that size -/
-theorem macho_oversize_only_by_reuse (f : Bytes) (p : SignParams) (so : SignOut) (hsign : sign f p = .ok so)
-    (hbig : 10000000 < so.plan.po.sigBufLen) :
-    so.plan.po.sigBufLen = so.plan.m.sigLen ∧ 10000000 < so.plan.m.sigLen := by
-  by_cases c : so.plan.po.sigBufLen = so.plan.m.sigLen
-  · exact ⟨c, by omega⟩
-  · have := macho_fresh_region_small f p so hsign c
-    omega
+/-- **macho_region_small** (current tree): the region a successful `machos.Sign` names in LC_CODE_SIGNATURE is at most 10^7
+    bytes, fresh or reused — no hypothesis (= `regular_small`) -/
+theorem macho_region_small (f : Bytes) (p : SignParams) (so : SignOut) (hsign : sign f p = .ok so) :
+    so.plan.po.sigBufLen ≤ 10000000 :=
+  regular_small f p so hsign
 
-/-- **macho_reused_oversize_region_refused** (current tree; what fix F-MACHO-3 leaves open, and why `Regular.oldSmall` is
-    NEEDED).  A `RegularImage` whose own old signature region is at least as large as the estimate AND larger than 10^7
-    bytes (offsets within 32 bits, as they are when read from the 32-bit fields of LC_CODE_SIGNATURE): `machos.Sign` succeeds
-    (the guard `markers.sigLen < estimatedSize && …` does not fire), the signed file exists, its prefix is the hashed
-    stream — and the locator refuses it ("unreasonably large LC_CODE_SIGNATURE").  The input is itself an image relic's
-    verifier refuses for the same reason.  Replay on the real code: harness/cmd/machobig reuse. -/
-theorem macho_reused_oversize_region_refused (f : Bytes) (p : SignParams) (so : SignOut) (blob : Bytes)
-    (hs : sign f p = .ok so) (R : RegularImage f so)
-    (hbig : 10000000 < so.plan.po.sigBufLen) (h32 : so.plan.po.sigStart < 2 ^ 32 ∧ so.plan.po.sigBufLen < 2 ^ 32)
+/-- **macho_reused_oversize_region_refused_orig** (finding F-MACHO-3b, fixed in /repo e678460; about the trees BEFORE that
+    fix: the original one, `signOrig`, and the intermediate one of /repo 5805b39, whose guard `sizeGuardMid` — only a fresh
+    region was tested — does not fire on these inputs, first conjunct).  An image with the regular layout (the fields of
+    `RegularImage` plus `noSlack`) whose own old signature region is at least as large as the estimate AND larger than 10^7
+    bytes (offsets within 32 bits, as they are when read from the 32-bit fields of LC_CODE_SIGNATURE): `machos.Sign`
+    succeeded, the region was reused as it was, the signed file exists, its prefix is the hashed stream — and the locator
+    refuses it ("unreasonably large LC_CODE_SIGNATURE").  Replayed on the real code before the fix:
+    harness/cmd/machobig reuse.  The current `Sign` refuses such an image: `macho_sign_refuses_oversize_reuse`. -/
+theorem macho_reused_oversize_region_refused_orig (f : Bytes) (p : SignParams) (so : SignOut) (blob : Bytes)
+    (hs : signOrig f p = .ok so) (R : RegularImage f so)
+    (noSlack : so.plan.m.loadCsStart = 0 →
+      hdrEndOf so.plan.m.magic + ((loadsOf f).map (fun e => e.2.2)).sum = so.plan.m.nextLc)
+    (hge : ¬ (so.plan.m.sigLen : Int) < estI so.plan.m (hashSizeOf p.hash) ((p.entitlement.map (·.length)).getD 0)
+      ((p.requirements.map (·.length)).getD 0))
+    (hbig : 10000000 < so.plan.m.sigLen) (h32 : so.plan.po.sigStart < 2 ^ 32 ∧ so.plan.po.sigBufLen < 2 ^ 32)
     (hb : blob.length ≤ so.plan.po.sigBufLen) :
+    ¬ sizeGuardMid so.plan.m (estI so.plan.m (hashSizeOf p.hash) ((p.entitlement.map (·.length)).getD 0)
+      ((p.requirements.map (·.length)).getD 0)) ∧
     so.plan.po.sigBufLen = so.plan.m.sigLen ∧
     ∃ g, signedFile f so.plan.po blob = .ok g ∧ locate g = .err "toolarge" ∧ g.take so.plan.po.sigStart = so.plan.stream := by
-  refine ⟨(macho_oversize_only_by_reuse f p so hs hbig).1, ?_⟩
-  exact large_signature_refused f p so blob (loadsOf f) (sign_orig_of_sign f p so hs) R.accepts R.oneSig
-    (regular_noSlack f p so hs R) R.leKind R.hdrBelow R.oldInside hbig h32 hb
+  obtain ⟨_, hplan, _, _, _⟩ := MachO.sign_pieces f p so hs
+  obtain ⟨_, hpo⟩ := plan_pieces f _ _ _ so.plan hplan
+  have hbl : so.plan.po.sigBufLen = so.plan.m.sigLen := by
+    rcases patchSignature_sigBufLen _ _ _ _ hpo with ⟨_, h2⟩ | ⟨h1, _⟩
+    · exact h2
+    · unfold estI at hge; omega
+  refine ⟨fun c => hge c.1, hbl, ?_⟩
+  exact large_signature_refused f p so blob (loadsOf f) hs R.accepts R.oneSig noSlack R.leKind R.hdrBelow R.oldInside
+    (by rw [hbl]; exact hbig) h32 hb
 
 /-- the threshold in numbers: an estimate above 10^7 is reached by 800 MiB of code with SHA-256 (32-byte slots), not by 700 MiB;
     so the hypotheses `hlt`, `hbig` of `macho_sign_refuses_oversize` are satisfiable (an unsigned image, `sigLen = 0`, with
@@ -170,11 +186,15 @@ theorem macho_reused_oversize_region_refused (f : Bytes) (p : SignParams) (so : 
 example : align (Int.tdiv ((800 * 2 ^ 20 : Int) * (20 + 32 : Nat)) 4096 + (0 : Nat) + 16384).toNat 8 > 10000000 ∧
     align (Int.tdiv ((700 * 2 ^ 20 : Int) * (20 + 32 : Nat)) 4096 + (0 : Nat) + 16384).toNat 8 ≤ 10000000 := by decide
 
-/-- hypotheses of `macho_sign_refuses_oversize` on concrete markers: an unsigned 64-bit image with 800 MiB of code, SHA-256
-    (the guard fires); with 700 MiB it does not -/
+/-- hypotheses of `macho_sign_refuses_oversize_region` on concrete markers, both branches: an unsigned 64-bit image with
+    800 MiB of code, SHA-256 (fresh region: the guard fires; with 700 MiB it does not); a small image that carries a region of
+    10000008 bytes (reused: the guard fires, the intermediate guard `sizeGuardMid` did not; with 10000000 bytes neither does) -/
 example :
-    let m (cs : Int) : Markers := ⟨false, 0xfeedfacf, 0, 0, 0, 32, 0, 0, 104, 2 ^ 63 - 1, cs, 104⟩
-    ¬ estRange (m (800 * 2 ^ 20)) 32 ∧ sizeGuard (m (800 * 2 ^ 20)) (estI (m (800 * 2 ^ 20)) 32 0 0) ∧
-    ¬ sizeGuard (m (700 * 2 ^ 20)) (estI (m (700 * 2 ^ 20)) 32 0 0) := by decide
+    let m (cs : Int) (sl : Nat) : Markers := ⟨false, 0xfeedfacf, if sl = 0 then 0 else 12288, sl, 0, 32, 0, 0, 104, 2 ^ 63 - 1, cs, 104⟩
+    ¬ estRange (m (800 * 2 ^ 20) 0) 32 ∧ sizeGuard (m (800 * 2 ^ 20) 0) (estI (m (800 * 2 ^ 20) 0) 32 0 0) ∧
+    ¬ sizeGuard (m (700 * 2 ^ 20) 0) (estI (m (700 * 2 ^ 20) 0) 32 0 0) ∧
+    sizeGuard (m 12288 10000008) (estI (m 12288 10000008) 32 0 12) ∧
+    ¬ sizeGuardMid (m 12288 10000008) (estI (m 12288 10000008) 32 0 12) ∧
+    ¬ sizeGuard (m 12288 10000000) (estI (m 12288 10000000) 32 0 12) := by decide
 
 end Relic.Props.C01
